@@ -1,0 +1,54 @@
+//go:build verif
+
+// Contracts for package topology, checked by /verif/govc (comment-only file).
+package topology
+
+//@ func abs
+//@   ensures [C19.abs] result >= 0
+//@   ensures result == x || result == 0 - x
+//@   ensures (result == 0) == (x == 0)
+
+//@ func intMax
+//@   ensures [C19.max] result >= a && result >= b && (result == a || result == b)
+
+//@ func intMin
+//@   ensures [C19.min] result <= a && result <= b && (result == a || result == b)
+
+//@ func boolMatch
+//@   ensures [C19.bm] result == 1.0 || result == 0.0
+//@   ensures (a == b) ==> result == 1.0
+
+//@ func EntropyDistance
+//@   ensures finite(e1) && finite(e2) ==> result == fabs(e1 - e2)
+
+//@ pred unit(x float64) = finite(x) && 0 <= x && x <= 1
+//@ pred nonneg(m map[string]int) = forall k in keys(m) :: m[k] >= 0
+//@ pred sameMap(a map[string]int, b map[string]int) = forall k: string :: (k in a <==> k in b) && a[k] == b[k]
+
+//@ func MapSimilarity
+//@   requires nonneg(a) && nonneg(b)
+//@   ensures [C19.range] unit(result)
+//@   ensures [C19.self] sameMap(a, b) ==> result == 1.0
+//@   loop 1 invariant 0 <= intersection && intersection <= union
+//@   loop 1 invariant sameMap(a, b) ==> intersection == union
+//@   loop 2 invariant 0 <= intersection && intersection <= union
+//@   loop 2 invariant sameMap(a, b) ==> intersection == union
+
+//@ func typeListSimilarity
+//@   ensures [C19.range] unit(result)
+//@   ensures [C19.self] seqeq(a, b) ==> result == 1.0
+//@   loop 1 invariant 0 <= i && i <= min(len(a), len(b)) && 0 <= matches && matches <= i
+//@   loop 1 invariant seqeq(a, b) ==> matches == i
+
+//@ pred wfT(t *FunctionTopology) = t.BranchCount >= 0 && t.BlockCount >= 0 && nonneg(t.CallSignatures) && nonneg(t.BinOpCounts) && nonneg(t.InstrCounts)
+//@ pred sameShape(a *FunctionTopology, b *FunctionTopology) = seqeq(a.ParamTypes, b.ParamTypes) && seqeq(a.ReturnTypes, b.ReturnTypes)
+//@   && a.LoopCount == b.LoopCount && a.BranchCount == b.BranchCount && a.BlockCount == b.BlockCount
+//@   && sameMap(a.CallSignatures, b.CallSignatures) && sameMap(a.BinOpCounts, b.BinOpCounts) && sameMap(a.InstrCounts, b.InstrCounts)
+//@   && a.HasDefer == b.HasDefer && a.HasPanic == b.HasPanic && a.HasGo == b.HasGo && a.HasSelect == b.HasSelect && a.HasRange == b.HasRange
+
+//@ func TopologySimilarity
+//@   requires a != nil ==> wfT(a)
+//@   requires b != nil ==> wfT(b)
+//@   ensures [C19.range] unit(result)
+//@   ensures [C19.nil] (a == nil || b == nil) ==> result == 0.0
+//@   ensures [C19.self] a != nil && b != nil && sameShape(a, b) ==> result == 1.0
